@@ -38,15 +38,25 @@ func ParseGoVersion(version string) (GoVersion, error) {
 	if len(parts) != 2 {
 		return result, fmt.Errorf("invalid Go version format: %s", version)
 	}
-	major, err := strconv.Atoi(parts[0])
+	major, err := parseVersionPart(parts[0])
 	if err != nil {
 		return result, fmt.Errorf("invalid major version part: %s: %w", parts[0], err)
 	}
-	minor, err := strconv.Atoi(parts[1])
+	minor, err := parseVersionPart(parts[1])
 	if err != nil {
 		return result, fmt.Errorf("invalid minor version part: %s: %w", parts[1], err)
 	}
 	result.Major = major
 	result.Minor = minor
 	return result, nil
+}
+
+// parseVersionPart parses an unsigned decimal number ("+5" and "-5" are not version parts).
+func parseVersionPart(s string) (int, error) {
+	for _, r := range s {
+		if r < '0' || r > '9' {
+			return 0, fmt.Errorf("%q is not a decimal number", s)
+		}
+	}
+	return strconv.Atoi(s)
 }
